@@ -128,6 +128,68 @@ class SortCase(Case):
         return {"weights": oc.value} if oc.ok else {}
 
 
+class TwoRunsCase(Case):
+    """Two optimizations in one process with the same filter options and ensemble size but other configured
+    realization weights: each run's rows carry its own configured weights."""
+
+    family = "sort/two-runs"
+
+    def __init__(self, cid, R=3, first=0, last=1):
+        self.id, self.R, self.first, self.last = cid, R, first, last
+        self.cfg0 = make_config({
+            "variables": {"initial_values": [0.0]},
+            "objectives": {"weights": [1.0], "realization_filters": [0]},
+            "realizations": {"weights": [1.0] * R, "realization_min_success": 0},
+            "realization_filters": [{"method": "sort-objective", "options": {"sort": [0], "first": first, "last": last}}],
+        })
+
+    def describe(self):
+        return f"sort-objective [{self.first},{self.last}], R={self.R}, two runs with different configured weights"
+
+    def inputs(self, env):
+        R = self.R
+        out = {}
+        for e in (0, 1):
+            w = env.reals(f"w{e}", R, lo=0, hi=1)
+            env.assume(ssum(list(w)) == 1)
+            out[e] = {"w": w, "f": env.reals(f"f{e}", (R, 1), lo=-BOUND, hi=BOUND)}
+        return out
+
+    def run(self, env, inp):
+        from ropt.ensemble_evaluator import EnsembleEvaluator
+        from ropt.evaluator import EvaluatorResult
+        out = []
+        for e in (0, 1):
+            cfg = clone_config(self.cfg0)
+            inject(cfg.realizations, weights=env.arr(inp[e]["w"], writeable=False))
+            ee = EnsembleEvaluator(cfg, None, lambda v, ctx, e=e: EvaluatorResult(objectives=env.arr(inp[e]["f"])), plugin_manager())
+            try:
+                (res,) = ee.calculate(env.const(np.zeros(1)), compute_functions=True, compute_gradients=False)
+                out.append(res)
+            except Exception as exc:  # noqa: BLE001
+                if not too_few(exc):
+                    raise
+                out.append(None)
+        return out
+
+    def props(self, env, inp, oc):
+        if not oc.ok:
+            return [("no_internal_exception:" + type(oc.exc).__name__, SB(False))]
+        props = []
+        nofail = [SB(False)] * self.R
+        for e, res in enumerate(oc.value):
+            if res is None:
+                continue
+            row = list(vals(res.realizations.objective_weights)[0])
+            v = [SR(inp[e]["f"][i, 0].v) for i in range(self.R)]
+            ps, _ = sort_window_spec(v, nofail, list(inp[e]["w"]), self.first, self.last, row)
+            props += [(f"run{e}.{n}", p) for n, p in ps]
+        return props
+
+    def observe(self, env, inp, oc):
+        return {}
+
+
 class MappingCase(Case):
     """Several filters mapped onto several objectives/constraints through the evaluator."""
 
@@ -258,6 +320,7 @@ def build_cases(tier):
     add(MappingCase, R=3, K=2, C=0, filters=(so(0, 0), so(1, 2)), obj_filt=(1, -1), con_filt=())   # a configured filter nothing refers to comes first
     add(MappingCase, R=3, K=1, C=2, filters=(sc(0, 1, 0), sc(0, 1, 1)), obj_filt=(-1,), con_filt=(0, 1))   # two constraint filters see the same arrays
     add(MappingCase, R=3, K=2, C=1, filters=(so(0, 1), so(2, 2), sc(0, 0)), obj_filt=(2, 2), con_filt=(0,))
+    add(TwoRunsCase)
     if tier == "thorough":
         add(MappingCase, R=3, K=2, C=2, filters=(so(0, 1), sc(0, 1, 1), so(2, 2, (1,))), obj_filt=(2, 0), con_filt=(-1, 1))
         add(MappingCase, R=4, K=2, C=1, filters=(so(1, 2), sc(0, 1)), obj_filt=(-1, 0), con_filt=(1,))
